@@ -88,7 +88,7 @@ var acServices = []string{v1connect.YorkieServiceName, v1connect.AdminServiceNam
 var acCreds = map[string][]string{
 	"YorkieService":  {"none", "badkey", "otherkey", "ownkey"},
 	"AdminService":   {"none", "badtoken", "outsider", "member", "owner", "badsecret", "emptysecret", "othersecret", "ownsecret"},
-	"ClusterService": {"none", "wrongsecret", "rightsecret"},
+	"ClusterService": {"none", "wrongsecret", "prefixsecret", "longersecret", "rightsecret"},
 }
 
 // target kind -> request fields it substitutes
@@ -1002,6 +1002,10 @@ func (w *acWorld) cred(svc, kind string) (map[string]string, []string) {
 		return nil, nil
 	case "ClusterService:wrongsecret":
 		return map[string]string{"x-cluster-secret": "wrong"}, nil
+	case "ClusterService:prefixsecret": // a proper prefix of the secret is a wrong secret
+		return map[string]string{"x-cluster-secret": acClusterSecret[:1]}, nil
+	case "ClusterService:longersecret": // so is an extension of it
+		return map[string]string{"x-cluster-secret": acClusterSecret + "-and-more"}, nil
 	case "ClusterService:rightsecret":
 		return map[string]string{"x-cluster-secret": acClusterSecret}, w.order
 	}
